@@ -1,6 +1,7 @@
 package main
 
 import (
+	"go/token"
 	"fmt"
 	"go/types"
 	"sort"
@@ -421,25 +422,56 @@ func (c *Ctx) SameSection(rule string, fn *ssa.Function, mu string, check, use E
 		}
 		return s
 	}
+	// A block that ends in `if ok` where ok is a bool phi of that block (`ok := a || b || c; if ok {`) is left
+	// through its true edge only by the predecessors on which the phi can be true, and likewise for false: the
+	// state on each outgoing edge is joined over the compatible predecessors only.
+	outEdge := map[edge]st{}
+	seenEdge := map[edge]bool{}
+	predState := func(p, b *ssa.BasicBlock) (st, bool) {
+		compat, isPhiIf := phiCondCompat(p)
+		if !isPhiIf {
+			return out[p], seenOut[p]
+		}
+		_ = compat
+		v, any := false, false
+		for si, sc := range p.Succs {
+			if sc != b || !seenEdge[edge{p, si}] {
+				continue
+			}
+			if !any {
+				v, any = outEdge[edge{p, si}], true
+			} else {
+				v = v && outEdge[edge{p, si}]
+			}
+		}
+		return v, any
+	}
+	join := func(b *ssa.BasicBlock, allow func(i int) bool) (st, bool) {
+		s, first := false, true
+		for i, p := range b.Preds {
+			if allow != nil && !allow(i) {
+				continue
+			}
+			ps, ok := predState(p, b)
+			if !ok {
+				continue
+			}
+			if first {
+				s, first = ps, false
+			} else {
+				s = s && ps
+			}
+		}
+		return s, !first
+	}
 	changed := true
 	for iter := 0; changed && iter < 100; iter++ {
 		changed = false
 		for _, b := range fn.Blocks {
 			s := false
 			if b != fn.Blocks[0] {
-				first := true
-				for _, p := range b.Preds {
-					if !seenOut[p] {
-						continue
-					}
-					if first {
-						s = out[p]
-						first = false
-					} else {
-						s = s && out[p]
-					}
-				}
-				if first {
+				var ok bool
+				if s, ok = join(b, nil); !ok {
 					continue
 				}
 			}
@@ -451,6 +483,23 @@ func (c *Ctx) SameSection(rule string, fn *ssa.Function, mu string, check, use E
 				seenOut[b] = true
 				out[b] = s
 				changed = true
+			}
+			if compat, isPhiIf := phiCondCompat(b); isPhiIf && b != fn.Blocks[0] {
+				for si := range b.Succs {
+					es, ok := join(b, func(i int) bool { return compat[si][i] })
+					if !ok {
+						continue
+					}
+					for _, ins := range b.Instrs {
+						es = step(es, ins)
+					}
+					e := edge{b, si}
+					if !seenEdge[e] || outEdge[e] != es {
+						seenEdge[e] = true
+						outEdge[e] = es
+						changed = true
+					}
+				}
 			}
 		}
 	}
@@ -479,4 +528,39 @@ func (c *Ctx) SameSection(rule string, fn *ssa.Function, mu string, check, use E
 		return
 	}
 	c.add("lockset", rule, construct, Held, c.P.InstrPos(uses[0]), fmt.Sprintf("%d site(s): check and use in one critical section of %s", len(uses), mu))
+}
+
+// phiCondCompat: b ends in an If whose condition is (the negation of) a bool phi of b itself; compat[si][i] tells
+// whether predecessor i can leave b through successor si (a constant incoming value fixes the branch).
+func phiCondCompat(b *ssa.BasicBlock) (compat [2][]bool, ok bool) {
+	if len(b.Instrs) == 0 || len(b.Succs) != 2 {
+		return compat, false
+	}
+	iff, isIf := b.Instrs[len(b.Instrs)-1].(*ssa.If)
+	if !isIf {
+		return compat, false
+	}
+	cond, neg := iff.Cond, false
+	for {
+		u, isNot := cond.(*ssa.UnOp)
+		if !isNot || u.Op != token.NOT {
+			break
+		}
+		cond, neg = u.X, !neg
+	}
+	phi, isPhi := cond.(*ssa.Phi)
+	if !isPhi || phi.Block() != b {
+		return compat, false
+	}
+	compat[0], compat[1] = make([]bool, len(b.Preds)), make([]bool, len(b.Preds))
+	for i, e := range phi.Edges {
+		k, isConst := e.(*ssa.Const)
+		if !isConst {
+			compat[0][i], compat[1][i] = true, true
+			continue
+		}
+		t := (constString(k) == "true") != neg // truth of the tested condition
+		compat[0][i], compat[1][i] = t, !t
+	}
+	return compat, true
 }
